@@ -32,8 +32,12 @@ impl SlotKey for crate::Slot {
     }
 }
 
+/// Invariant: an absent entry holds `V::default()` in `vals`, so `entry(k).or_default()` only
+/// has to flip the presence bit (writing a fresh 240-scalar default state under a symbolic
+/// guard at every `state_mut` was the single largest cost: 100 k steps per harness).
 pub struct BTreeMap<K, V> {
-    e: [Option<(K, V)>; NSLOT],
+    present: [bool; NSLOT],
+    vals: [V; NSLOT],
     /// key of every index, never written after `new`: iteration yields these, so the keys a
     /// caller sees are constants even when the presence of an entry is symbolic
     keys: [K; NSLOT],
@@ -48,16 +52,57 @@ macro_rules! each {
     };
 }
 
-impl<K: SlotKey, V> Default for BTreeMap<K, V> {
+impl<K: SlotKey, V: Default> Default for BTreeMap<K, V> {
     fn default() -> Self {
         Self::new()
     }
 }
 
-impl<K: SlotKey, V> BTreeMap<K, V> {
+impl<K: SlotKey, V: Default> BTreeMap<K, V> {
     pub fn new() -> Self {
-        Self { e: [None, None, None, None, None, None, None, None], keys: [K::from_idx(0), K::from_idx(1), K::from_idx(2), K::from_idx(3), K::from_idx(4), K::from_idx(5), K::from_idx(6), K::from_idx(7)] }
+        Self {
+            present: [false; NSLOT],
+            vals: [V::default(), V::default(), V::default(), V::default(), V::default(), V::default(), V::default(), V::default()],
+            keys: [K::from_idx(0), K::from_idx(1), K::from_idx(2), K::from_idx(3), K::from_idx(4), K::from_idx(5), K::from_idx(6), K::from_idx(7)],
+        }
     }
+    pub fn insert(&mut self, k: K, v: V) -> Option<V> {
+        let p = Self::index_of(&k);
+        each!(i, {
+            if i == p {
+                let old = std::mem::replace(&mut self.vals[i], v);
+                let was = self.present[i];
+                self.present[i] = true;
+                return if was { Some(old) } else { None };
+            }
+        });
+        None
+    }
+    pub fn entry(&mut self, k: K) -> Entry<'_, K, V> {
+        let p = Self::index_of(&k);
+        each!(i, {
+            if i == p {
+                return Entry { present: &mut self.present[i], val: &mut self.vals[i], _k: PhantomData };
+            }
+        });
+        unsupported("unreachable")
+    }
+    /// Moves every entry with key `>= k` into the returned map.
+    pub fn split_off(&mut self, k: &K) -> Self {
+        let from = k.idx();
+        let mut out = Self::new();
+        each!(i, {
+            if i >= from {
+                out.present[i] = self.present[i];
+                self.present[i] = false;
+                out.vals[i] = std::mem::replace(&mut self.vals[i], V::default());
+            }
+        });
+        out
+    }
+}
+
+impl<K: SlotKey, V> BTreeMap<K, V> {
     fn index_of(k: &K) -> usize {
         let i = k.idx();
         if i >= NSLOT {
@@ -70,10 +115,7 @@ impl<K: SlotKey, V> BTreeMap<K, V> {
         // select among constant element addresses (never a reference with a symbolic offset)
         each!(i, {
             if i == p {
-                return match &self.e[i] {
-                    Some((_, v)) => Some(v),
-                    None => None,
-                };
+                return if self.present[i] { Some(&self.vals[i]) } else { None };
             }
         });
         None
@@ -84,41 +126,9 @@ impl<K: SlotKey, V> BTreeMap<K, V> {
     pub fn len(&self) -> usize {
         let mut n = 0;
         each!(i, {
-            n += self.e[i].is_some() as usize;
+            n += self.present[i] as usize;
         });
         n
-    }
-    pub fn insert(&mut self, k: K, v: V) -> Option<V> {
-        let p = Self::index_of(&k);
-        let mut old = None;
-        each!(i, {
-            if i == p {
-                old = self.e[i].take();
-                self.e[i] = Some((k, v));
-                return old.map(|(_, v)| v);
-            }
-        });
-        None
-    }
-    pub fn entry(&mut self, k: K) -> Entry<'_, K, V> {
-        let p = Self::index_of(&k);
-        each!(i, {
-            if i == p {
-                return Entry { slot: &mut self.e[i], key: k };
-            }
-        });
-        unsupported("unreachable")
-    }
-    /// Moves every entry with key `>= k` into the returned map.
-    pub fn split_off(&mut self, k: &K) -> Self {
-        let from = k.idx();
-        let mut out = Self::new();
-        each!(i, {
-            if i >= from {
-                out.e[i] = self.e[i].take();
-            }
-        });
-        out
     }
     pub fn iter(&self) -> Iter<'_, K, V> {
         Iter { map: self, next: 0 }
@@ -129,22 +139,17 @@ impl<K: SlotKey, V> BTreeMap<K, V> {
 }
 
 pub struct Entry<'a, K, V> {
-    slot: &'a mut Option<(K, V)>,
-    key: K,
+    present: &'a mut bool,
+    val: &'a mut V,
+    _k: PhantomData<K>,
 }
 impl<'a, K, V> Entry<'a, K, V> {
     pub fn or_default(self) -> &'a mut V
     where
         V: Default,
     {
-        let Entry { slot, key } = self;
-        if slot.is_none() {
-            *slot = Some((key, V::default()));
-        }
-        match slot {
-            Some((_, v)) => v,
-            None => unsupported("unreachable"),
-        }
+        *self.present = true;
+        self.val
     }
 }
 
@@ -159,9 +164,9 @@ impl<'a, K, V> Iterator for Iter<'a, K, V> {
         let map = self.map;
         each!(i, {
             if i >= self.next {
-                if let Some((_, v)) = &map.e[i] {
+                if map.present[i] {
                     self.next = i + 1;
-                    return Some((&map.keys[i], v));
+                    return Some((&map.keys[i], &map.vals[i]));
                 }
             }
         });
@@ -202,8 +207,8 @@ impl<'a, K: SlotKey, V, P: FnMut(&(&'a K, &'a V)) -> bool, T, F: FnMut((&'a K, &
         let mut out: B = std::iter::empty().collect();
         let map = self.map;
         each!(i, {
-            if let Some((_, v)) = &map.e[i] {
-                let item = (&map.keys[i], v);
+            if map.present[i] {
+                let item = (&map.keys[i], &map.vals[i]);
                 if (self.pred)(&item) {
                     out.push1((self.f)(item));
                 }
@@ -221,7 +226,7 @@ impl<T: SlotKey> Extend1<T> for Vec<T> {
     }
 }
 
-impl<K: SlotKey, V> FromIterator<(K, V)> for BTreeMap<K, V> {
+impl<K: SlotKey, V: Default> FromIterator<(K, V)> for BTreeMap<K, V> {
     fn from_iter<I: IntoIterator<Item = (K, V)>>(it: I) -> Self {
         let mut m = Self::new();
         for (k, v) in it {
